@@ -530,6 +530,150 @@ func genWiring() {
 		}
 		add("serviceListenersServeOwnKeys", ok, where, "in runConfig's loop over config.Services the cipher list comes from newCipherListFromConfig(that service) and every listener of the loop body is served by the ShadowsocksService built WithCiphers(it)")
 	}
+	// ---- lifecycle (C18): handlers are joined, panics are contained, helper goroutines are joined
+	{
+		ok := false
+		where := ""
+		if fd := svc.findFunc("", "StreamServe"); fd != nil {
+			where = pos(fd)
+			waits := false
+			for _, st := range fd.Body.List {
+				if d, isDefer := st.(*ast.DeferStmt); isDefer && exprString(d.Call.Fun) == "running.Wait" {
+					waits = true
+				}
+			}
+			adds := len(callsOf(fd.Body, "running.Add")) == 1
+			var goBody *ast.BlockStmt
+			ast.Inspect(fd.Body, func(n ast.Node) bool {
+				if g, isGo := n.(*ast.GoStmt); isGo {
+					if fl, isLit := g.Call.Fun.(*ast.FuncLit); isLit {
+						goBody = fl.Body
+					}
+				}
+				return true
+			})
+			done, closes, recovers, handles := false, false, false, false
+			if goBody != nil {
+				for _, st := range goBody.List {
+					if d, isDefer := st.(*ast.DeferStmt); isDefer {
+						switch f := exprString(d.Call.Fun); {
+						case f == "running.Done":
+							done = true
+						case f == "clientConn.Close":
+							closes = true
+						}
+						if fl, isLit := d.Call.Fun.(*ast.FuncLit); isLit {
+							if found, _ := containsCall(fl.Body, "recover"); found {
+								recovers = true
+							}
+						}
+					}
+					if es, isExpr := st.(*ast.ExprStmt); isExpr {
+						if c, isCall := es.X.(*ast.CallExpr); isCall && exprString(c.Fun) == "handle" {
+							handles = done && closes && recovers // the defers come first
+						}
+					}
+				}
+			}
+			ok = waits && adds && handles
+		}
+		add("streamServeJoinsAndContainsHandlers", ok, where, "StreamServe: `defer running.Wait()` at function level; each handler goroutine defers running.Done, clientConn.Close and a recover() before calling handle")
+	}
+	{
+		ok := false
+		where := ""
+		if b := bodyOf(svc, "packetHandler", "Handle"); b != nil {
+			where = pos(b)
+			// the per-datagram closure inside the for loop starts with a deferred recover()
+			ast.Inspect(b, func(n ast.Node) bool {
+				fs, isFor := n.(*ast.ForStmt)
+				if !isFor {
+					return true
+				}
+				ast.Inspect(fs.Body, func(m ast.Node) bool {
+					fl, isLit := m.(*ast.FuncLit)
+					if !isLit || len(fl.Body.List) == 0 {
+						return true
+					}
+					if d, isDefer := fl.Body.List[0].(*ast.DeferStmt); isDefer {
+						if inner, isLit := d.Call.Fun.(*ast.FuncLit); isLit {
+							if found, _ := containsCall(inner.Body, "recover"); found {
+								ok = true
+							}
+						}
+					}
+					return true
+				})
+				return false
+			})
+		}
+		add("udpLoopContainsPanicsPerDatagram", ok, where, "packetHandler.Handle: the per-datagram closure of the read loop begins with a deferred recover(), so a failure while handling one datagram does not end the loop")
+	}
+	{
+		ok := false
+		where := ""
+		if fd := svc.findFunc("", "proxyConnection"); fd != nil {
+			where = pos(fd)
+			// after the `go` statement every return is preceded by the unconditional receive from the
+			// channel the helper goroutine sends its result on (the helper is always joined)
+			var goPos, recvPos token.Pos
+			sends := 0
+			for _, st := range fd.Body.List {
+				switch x := st.(type) {
+				case *ast.GoStmt:
+					goPos = x.Pos()
+					ast.Inspect(x, func(n ast.Node) bool {
+						if ss, isSend := n.(*ast.SendStmt); isSend && exprString(ss.Chan) == "fromClientErrCh" {
+							sends++
+						}
+						return true
+					})
+				case *ast.AssignStmt:
+					if len(x.Rhs) == 1 {
+						if u, isU := x.Rhs[0].(*ast.UnaryExpr); isU && u.Op == token.ARROW && exprString(u.X) == "fromClientErrCh" && recvPos == 0 {
+							recvPos = x.Pos()
+						}
+					}
+				}
+			}
+			ok = goPos != 0 && recvPos > goPos && sends == 1
+			ast.Inspect(fd.Body, func(n ast.Node) bool {
+				if _, isLit := n.(*ast.FuncLit); isLit {
+					return false
+				}
+				if r, isRet := n.(*ast.ReturnStmt); isRet && r.Pos() > goPos && r.Pos() < recvPos {
+					ok = false
+				}
+				return true
+			})
+		}
+		add("relayJoinsItsUploadGoroutine", ok, where, "proxyConnection: the helper goroutine sends its result once on fromClientErrCh and the function receives it, as a top-level statement, before any return that follows the go statement")
+	}
+	{
+		ok := false
+		where := ""
+		if b := bodyOf(svc, "natmap", "Add"); b != nil {
+			where = pos(b)
+			ast.Inspect(b, func(n ast.Node) bool {
+				if g, isGo := n.(*ast.GoStmt); isGo {
+					if fl, isLit := g.Call.Fun.(*ast.FuncLit); isLit {
+						var order []string
+						for _, st := range fl.Body.List {
+							ast.Inspect(st, func(m ast.Node) bool {
+								if c, isCall := m.(*ast.CallExpr); isCall {
+									order = append(order, exprString(c.Fun))
+								}
+								return true
+							})
+						}
+						ok = strings.Join(order, " ") == "timedCopy connMetrics.RemoveNatEntry m.del clientAddr.String pc.Close"
+					}
+				}
+				return true
+			})
+		}
+		add("natGoroutineRemovesAndCloses", ok, where, "natmap.Add's goroutine: timedCopy, then RemoveNatEntry, then the entry is deleted and its socket closed")
+	}
 	l := newLean("Wiring.lean")
 	l.p("namespace OutlineModel.Gen.Wiring")
 	for _, f := range facts {
